@@ -23,28 +23,28 @@ PENDING_REASON = "check under construction (simulation target, DESIGN.md section
 CLAIMED = {
     "C05": dict(
         machine="M-WC",
-        technique="deterministic simulation with fault injection: seeded operation histories (query/reassign/query) on live Wildcard/Address/address-group objects, each run in a forked child; injected memo faults (clear, bypass, resize knob, pressure, caller scribbling the returned list), GC + drop + re-allocation (id reuse), same-identifier twins, log-sink failure during an assignment; invariant checks against a bit-algebra reference model after every step",
+        technique="deterministic simulation with fault injection: seeded operation histories (query/reassign/query) on live Wildcard/Address/address-group objects, each run in a forked child; injected memo faults (clear, bypass, resize knob, pressure, caller scribbling the returned list), GC + drop + re-allocation (id reuse), same-identifier twins, log-sink failure during an assignment, root log level knob, process start under another PYTHONHASHSEED (sub-check); invariant checks against a bit-algebra reference model after every step",
         text="Seeded search over histories of <= 40 public operations on <= 6 live objects, interleaved with faults on the process-global memo seam; after every step every derived value (ipnets/ipnet/prefix/wildmask/data) is compared with an exact bit-algebra model of the line the object reports, and accept/reject is compared with the limit. Sampling, not proof: a clean batch is evidence that stale or approximated results do not occur on the explored histories.",
         note="Trusted: python ipaddress, the harness's own bit algebra; ipnets() enumerated only up to 12 non-contiguous bits; memo faults act only if an lru_cache is reachable from cisco_acl.wildcard (discovered at run time).",
         ref="7/C05",
     ),
     "C08": dict(
         machine="M-PORT",
-        technique="deterministic simulation (degenerate: no seam is touched by Port; faults = library-raised refusals): seeded histories of line assignments, write-backs through items/ports/sport (the very list objects the views return), transfers between live objects, emptying and refused writes, checked step by step against a set-denotation reference model, an independent range-string codec and a consistency-after-refusal invariant",
+        technique="deterministic simulation (degenerate: no seam is touched by Port; faults = library-raised refusals, out-of-domain expressions built by another client of the process, process start under another PYTHONHASHSEED): seeded histories of line assignments, new operands and write-backs through items/ports/sport (the very list objects the views return, also edited in place), transfers between live objects, emptying and refused writes, checked step by step against a set-denotation reference model, an independent range-string codec and a consistency-after-refusal invariant",
         text="Seeded search over histories of <= 30 operations per Port object; after every step the port set, the range string (own decoder/encoder and the library's), the rendered text (independent reader) and the write-back invariance are checked against the model (operator, operands).",
         note="Trusted: port-name tables as data; harness denotation of the five operators. No seam is touched by Port, so no fault other than library-raised aborts is injected (said in DESIGN.md).",
         ref="7/C08",
     ),
     "C12": dict(
         machine="M-BUILD",
-        technique="deterministic simulation with fault injection on the log sink: seeded histories of constructions and text assignments (both platforms and software versions in one process, same text re-assigned after in-place edits, objects converted before assignment) from mixed valid/ignorable/invalid bodies, with the root logger as a simulator-owned channel whose downstream handler raises or detaches at the k-th record; accounting identity checked over the recorded history",
+        technique="deterministic simulation with fault injection on the log sink: seeded histories of constructions and text assignments (both platforms and software versions in one process, same text re-assigned after in-place edits, objects converted - or refused conversion - before assignment) from mixed valid/ignorable/invalid bodies, with the root logger as a simulator-owned channel whose downstream handler raises or detaches at the k-th record, plus a sub-check under another PYTHONHASHSEED; accounting identity checked over the recorded history",
         text="Seeded search over body texts and sink-failure points; every non-empty body line must be an item in order, an ignorable line, a captured record naming it, or the whole call fails.",
         note="Trusted: validity-by-construction of generated valid lines (generator independent of the library), the harness reader.",
         ref="7/C12",
     ),
     "C16": dict(
         machine="M-OBJ",
-        technique="deterministic simulation: seeded copy / export-import (with and without identifiers) then mutate-one-observe-other histories over all exported classes with a deterministic id source; exact object-graph aliasing walk (copy vs source, copy vs copy, ACLs of one acls(config) call), interleaving of operations on source and copy against an isolated control with GC events, uuid/note stability map at four levels and identifier uniqueness after every step",
+        technique="deterministic simulation: seeded copy / export-import (with and without identifiers) then mutate-one-observe-other histories over all exported classes with a deterministic id source; exact object-graph aliasing walk (copy vs source, copy vs copy, ACLs of one acls(config) call), interleaving of operations on source and copy against an isolated control with GC events, uuid/note stability map at four levels (also after refused transformations) and identifier uniqueness after every step; root log level knob and a sub-check under another PYTHONHASHSEED",
         text="Seeded search over objects of all exported classes and mutation histories; structural aliasing between copy and source is decided exactly per pair; behavioural independence and identifier/note stability across in-place transformations are checked step by step.",
         note="Trusted: Python object identity/graph walk; the deterministic id source (stub for uuid1).",
         ref="7/C16",
@@ -55,7 +55,7 @@ for pid, title in [("C02", "platform flips"), ("C04", "shading/delete_shadow tri
                    ("C17", "the full operation alphabet"), ("C19", "ungroup_ports calls")]:
     CLAIMED[pid] = dict(
         machine="M-ACL",
-        technique=f"deterministic simulation with fault injection: seeded histories of public operations on one or two live ACLs (biased to {title}), each run in a forked child, under memo faults (clear/bypass inside operations, size knob, pressure, scribbled results), GC/drop events, foreign-platform parses and library-raised aborts; after every step refinement against an executable reference model through an independent reader, text fix-point, twin differential and cross-object interference check",
+        technique=f"deterministic simulation with fault injection: seeded histories of public operations on one or two live ACLs (independent, sharing item objects, or template twins with other group members; biased to {title}), each run in a forked child, under memo faults (clear/bypass inside operations, size knob, pressure, scribbled results), GC/drop events, foreign-platform parses, library-raised aborts (histories continue on the object where its state stays consistent), root log level knob and process start under another PYTHONHASHSEED (sub-check); after every step refinement against an executable reference model through an independent reader, text fix-point, twin differential, aliasing invariants and cross-object interference check",
         text=f"Seeded search over operation histories (<= 40 ops, ACL <= 12 lines) with {title} at arbitrary history points; the oracles owned by {pid} (DESIGN.md section 7) are evaluated against an exact cube/interval model on every such step; failures are minimised and replayed in a fresh interpreter.",
         note="Trusted: port/protocol name tables as data (C09 not claimed); the harness's reader, cube/interval algebra and reference semantics of the operations; TCP-flag semantics = match-any.",
         ref=f"7/{pid}",
